@@ -21,6 +21,19 @@ import numpy as np
 from .TransformationError import TransformationError
 
 
+def special_quadric_to_quadric(params):
+    '''Expand the ten parameters of an ``SQ`` surface (A, B, C, D, E, F, G and
+    the reference point) into the ten coefficients of the equivalent ``GQ``
+    surface.'''
+    asq, bsq, csq, dsq, esq, fsq, gsq, xsq, ysq, zsq = params
+    return [asq, bsq, csq, 0.0, 0.0, 0.0,
+            2.0 * dsq - 2.0 * asq * xsq,
+            2.0 * esq - 2.0 * bsq * ysq,
+            2.0 * fsq - 2.0 * csq * zsq,
+            asq * xsq**2 + bsq * ysq**2 + csq * zsq**2
+            - 2.0 * (dsq * xsq + esq * ysq + fsq * zsq) + gsq]
+
+
 def transformation_quad(params, trans):
     '''Apply the `trans` affine transformation to the quadric
     described by the `params` parameters.
